@@ -34,6 +34,7 @@ type SolveOpts struct {
 	Second    bool // thorough: require agreement of a second solver
 	Seed      int
 	KeepAll   bool
+	noCases   bool // internal: do not try the case split (already tried / being tried)
 }
 
 func runSolver(s solverSpec, file string, timeoutS int) (answer string, out string, secs float64) {
@@ -85,6 +86,29 @@ type Tally struct {
 }
 
 func (vc *VC) solveOne(o *Obligation, opts SolveOpts, tally *Tally) {
+	if len(o.Cases) > 1 && !o.Cover && !opts.noCases {
+		// 1. the whole obligation with a short timeout, 2. once per return site, 3. the whole obligation again
+		quick := opts
+		quick.noCases = true
+		quick.Timeouts = nil
+		for _, t := range opts.Timeouts {
+			if t > 4 {
+				t = 4
+			}
+			quick.Timeouts = append(quick.Timeouts, t)
+		}
+		vc.solveOne(o, quick, tally)
+		if o.Status == "discharged" || o.Status == "failed" {
+			return
+		}
+		if vc.solveByCases(o, opts, tally) {
+			return
+		}
+		full := opts
+		full.noCases = true
+		vc.solveOne(o, full, tally)
+		return
+	}
 	q := vc.queryFor(o)
 	fname := filepath.Join(opts.Dir, sanitize(o.Name)+".smt2")
 	if len(fname) > 200 {
@@ -162,6 +186,79 @@ func (vc *VC) solveOne(o *Obligation, opts SolveOpts, tally *Tally) {
 	if !o.Cover {
 		vc.searchModel(o, q, opts)
 	}
+}
+
+// solveByCases proves an undecided obligation once per case (return site): the case condition is added
+// as a hypothesis, which lets the solver collapse the merged results and final state to that site's.
+// The disjunction of the cases is the obligation's guard, so all cases unsat means the obligation holds.
+func (vc *VC) solveByCases(o *Obligation, opts SolveOpts, tally *Tally) bool {
+	base := vc.queryFor(o)
+	i := strings.LastIndex(base, "(check-sat)")
+	if i < 0 {
+		return false
+	}
+	var secs float64
+	used := map[string]bool{}
+	for ci, c := range o.Cases {
+		q := base[:i] + "(assert " + c + ")\n" + base[i:]
+		fname := filepath.Join(opts.Dir, sanitize(o.Name)+fmt.Sprintf(".case%d.smt2", ci))
+		if len(fname) > 200 {
+			fname = fname[:170] + fmt.Sprintf("_%d.case%d.smt2", len(o.Name), ci)
+		}
+		if os.WriteFile(fname, []byte(q), 0o644) != nil {
+			return false
+		}
+		type res struct {
+			solver, ans string
+			secs        float64
+		}
+		ctx, cancel := context.WithCancel(context.Background())
+		ch := make(chan res, len(solvers))
+		for si, s := range solvers {
+			to := opts.Timeouts[si%len(opts.Timeouts)]
+			go func(s solverSpec, to int) {
+				ans, _, sec := runSolverCtx(ctx, s, fname, to)
+				ch <- res{s.name, ans, sec}
+			}(s, to)
+		}
+		ok := false
+		for range solvers {
+			r := <-ch
+			tally.mu.Lock()
+			tally.SolverSec += r.secs
+			tally.Queries++
+			tally.mu.Unlock()
+			if r.ans == "unsat" && !ok {
+				ok = true
+				secs += r.secs
+				used[r.solver] = true
+				cancel()
+			}
+		}
+		cancel()
+		if !opts.KeepAll {
+			os.Remove(fname)
+		}
+		if !ok {
+			return false
+		}
+	}
+	var us []string
+	for s := range used {
+		us = append(us, s)
+	}
+	o.Status = "discharged"
+	o.Solver = strings.Join(us, "+")
+	o.Seconds = secs
+	o.Model = fmt.Sprintf("proved by case split over %d return sites", len(o.Cases))
+	tally.mu.Lock()
+	tally.BySolver["case-split"]++
+	tally.mu.Unlock()
+	if !opts.KeepAll && o.Query != "" {
+		os.Remove(o.Query)
+		o.Query = ""
+	}
+	return true
 }
 
 // searchModel looks for a candidate counterexample of an undischarged obligation: quantified
